@@ -215,4 +215,5 @@ def run(ctx):
         names = core.names_for(c["n"])
         ctx.sample({"base": [core.cond_text((b, a), names) for _, b, a in c["base"]], "facts": [core.f_text(f, names) for f in c["facts"]],
                     "extended": c["extended"], "ops": c["ops"][:4], "driver": resp[:80]})
-        ctx.failures.extend(compare(c, impl, resp))
+        for f in compare(c, impl, resp):
+            ctx.fail(f, lambda f: core.generic_shrink(f, recheck, fields=("base", "queries", "ops", "facts"), budget=30))
